@@ -36,6 +36,7 @@ def run(ctx: Ctx) -> None:
     _memo.rule_isinstance_on_class(ctx, ['graphiq/backends/stabilizer/functions/clifford.py', 'graphiq/backends/stabilizer/functions/transformation.py', 'graphiq/backends/stabilizer/state.py', 'graphiq/backends/stabilizer/clifford_tableau.py', 'graphiq/backends/stabilizer/tableau.py'])
     _memo.rule_zip_truncation(ctx, ['graphiq/backends/stabilizer/functions/clifford.py', 'graphiq/backends/stabilizer/functions/transformation.py', 'graphiq/backends/stabilizer/state.py', 'graphiq/backends/stabilizer/clifford_tableau.py', 'graphiq/backends/stabilizer/tableau.py'])
     _memo.rule_search_fallthrough(ctx, ['graphiq/backends/stabilizer/functions/clifford.py', 'graphiq/backends/stabilizer/functions/transformation.py', 'graphiq/backends/stabilizer/state.py', 'graphiq/backends/stabilizer/clifford_tableau.py', 'graphiq/backends/stabilizer/tableau.py'])
+    _memo.rule_zip_pairing(ctx, ['graphiq/backends/stabilizer/functions/clifford.py', 'graphiq/backends/stabilizer/functions/transformation.py', 'graphiq/backends/stabilizer/state.py', 'graphiq/backends/stabilizer/clifford_tableau.py', 'graphiq/backends/stabilizer/tableau.py'])
     tableau.rule_own_tableau(ctx)
     tableau.rule_eq_decision(ctx)
     tableau.rule_rowcol(ctx, [CLIFF, gatesum.TRANSFORM, STABF])
